@@ -8,6 +8,7 @@ import (
 
 	"golang.org/x/tools/go/ssa"
 
+	"verif/sa/internal/e5path"
 	"verif/sa/internal/load"
 	"verif/sa/internal/oblig"
 )
@@ -25,6 +26,36 @@ type sliceOrigin struct {
 	field *types.Var
 	pos   token.Pos
 	desc  string
+}
+
+// callEnv binds the parameters of a helper to the arguments of the call being classified, so that
+// "append to the same field" is recognised when the field's list is passed into the helper and the
+// helper's result is stored back (context-sensitive for the one call).
+var callEnv = map[*ssa.Parameter]ssa.Value{}
+
+// targetBase is the object whose field the store under classification writes.
+var targetBase ssa.Value
+
+func sameOwner(base ssa.Value) bool {
+	if targetBase == nil || base == nil {
+		return false
+	}
+	return base == targetBase || e5path.AccessPath(base) == e5path.AccessPath(targetBase)
+}
+
+func resolveEnv(v ssa.Value) ssa.Value {
+	for i := 0; i < 4; i++ {
+		p, ok := v.(*ssa.Parameter)
+		if !ok {
+			return v
+		}
+		b, ok := callEnv[p]
+		if !ok {
+			return v
+		}
+		v = b
+	}
+	return v
 }
 
 // originsOf classifies where a slice value stored into a tracked field comes from.
@@ -53,6 +84,9 @@ func originsOf(v ssa.Value, target *types.Var, tracked map[string]bool, inSet ma
 		return originsOf(x.X, target, tracked, inSet, callers, depth+1, seen)
 	case *ssa.UnOp:
 		if x.Op == token.MUL {
+			if f, base := fieldOfAddr(x.X); f != nil && f == target && sameOwner(base) {
+				return []sliceOrigin{{kind: "own", desc: "the list the same field of the same object already holds"}}
+			}
 			if f, _ := fieldOfAddr(x.X); f != nil && tracked[f.Name()] {
 				return []sliceOrigin{{kind: "share", field: f, pos: x.Pos(), desc: "load of field " + f.Name()}}
 			}
@@ -60,9 +94,9 @@ func originsOf(v ssa.Value, target *types.Var, tracked map[string]bool, inSet ma
 	case *ssa.Call:
 		cc := x.Common()
 		if b, ok := cc.Value.(*ssa.Builtin); ok && b.Name() == "append" {
-			first := cc.Args[0]
+			first := resolveEnv(cc.Args[0])
 			if ld, ok := first.(*ssa.UnOp); ok && ld.Op == token.MUL {
-				if f, _ := fieldOfAddr(ld.X); f != nil && f == target {
+				if f, base := fieldOfAddr(ld.X); f != nil && f == target && sameOwner(base) {
 					return []sliceOrigin{{kind: "own", desc: "append to the same field"}}
 				}
 			}
@@ -80,8 +114,39 @@ func originsOf(v ssa.Value, target *types.Var, tracked map[string]bool, inSet ma
 					return []sliceOrigin{{kind: "fresh", desc: full}}
 				}
 			}
+			// a repository helper: what it returns, with its parameters bound to this call's arguments
+			if load.InRepo(callee) && len(callee.Blocks) > 0 && depth < 6 {
+				saved := map[*ssa.Parameter]ssa.Value{}
+				for i, prm := range callee.Params {
+					if i < len(cc.Args) {
+						if old, ok := callEnv[prm]; ok {
+							saved[prm] = old
+						}
+						callEnv[prm] = resolveEnv(cc.Args[i])
+					}
+				}
+				var out []sliceOrigin
+				for _, b := range callee.Blocks {
+					if ret, ok := b.Instrs[len(b.Instrs)-1].(*ssa.Return); ok && len(ret.Results) > 0 {
+						out = append(out, originsOf(ret.Results[0], target, tracked, inSet, callers, depth+1, map[ssa.Value]bool{})...)
+					}
+				}
+				for _, prm := range callee.Params {
+					if old, ok := saved[prm]; ok {
+						callEnv[prm] = old
+					} else {
+						delete(callEnv, prm)
+					}
+				}
+				if len(out) > 0 {
+					return out
+				}
+			}
 		}
 	case *ssa.Parameter:
+		if b, ok := callEnv[x]; ok {
+			return originsOf(b, target, tracked, inSet, callers, depth+1, seen)
+		}
 		var out []sliceOrigin
 		f := x.Parent()
 		idx := -1
@@ -164,6 +229,7 @@ func SharedSlices(p *load.Prog, r *oblig.Report, rule string, entry *ssa.Functio
 		return
 	}
 	for _, s := range stores {
+		_, targetBase = fieldOfAddr(s.st.Addr)
 		for _, o := range originsOf(s.st.Val, s.field, tracked, inSet, callers, 0, map[ssa.Value]bool{}) {
 			fn := load.FuncName(s.st.Parent())
 			construct := fmt.Sprintf("slice-store:%s:%s:%s<-%s", entryName, fn, s.field.Name(), o.desc)
@@ -213,17 +279,35 @@ func GuardedAppends(p *load.Prog, r *oblig.Report, rule string, funcs []*ssa.Fun
 				if !okStruct || !isCall {
 					continue
 				}
+				construct := fmt.Sprintf("guarded-append:%s:%s", load.FuncName(f), field)
 				bi, isB := call.Common().Value.(*ssa.Builtin)
-				if !isB || bi.Name() != "append" {
+				if isB && bi.Name() == "append" {
+					n++
+					if guardedAppend(call) {
+						r.OK(rule, construct, p.Pos(st.Pos()), "dominated-by-!Contains", "append happens only when the element is absent")
+					} else {
+						r.Bad(rule, construct, p.Pos(st.Pos()), "append to "+field+" is not dominated by !slices.Contains("+field+", elem) on the same list: duplicates can enter the list")
+					}
 					continue
 				}
-				n++
-				construct := fmt.Sprintf("guarded-append:%s:%s", load.FuncName(f), field)
-				elem := appendedElem(call)
-				if guardedByNotContains(b, base, fv, elem) {
-					r.OK(rule, construct, p.Pos(st.Pos()), "dominated-by-!Contains", "append happens only when the element is absent")
-				} else {
-					r.Bad(rule, construct, p.Pos(st.Pos()), "append to "+field+" is not dominated by !slices.Contains("+field+", elem) on the same list: duplicates can enter the list")
+				// the list is extended by a repository helper whose result is stored back: its appends are judged in its body
+				if h := call.Common().StaticCallee(); h != nil && load.InRepo(h) && len(h.Blocks) > 0 {
+					aps := appendsReachingReturn(h)
+					if len(aps) == 0 {
+						continue
+					}
+					n++
+					bad := false
+					for _, ap := range aps {
+						if !guardedAppend(ap) {
+							bad = true
+						}
+					}
+					if bad {
+						r.Bad(rule, construct, p.Pos(st.Pos()), "the list stored into "+field+" is extended in "+load.FuncName(h)+" by an append that is not dominated by !slices.Contains(list, elem) on the same list: duplicates can enter the list")
+					} else {
+						r.OK(rule, construct, p.Pos(st.Pos()), "dominated-by-!Contains (in "+h.Name()+")", "every append in the helper happens only when the element is absent")
+					}
 				}
 			}
 		}
@@ -257,8 +341,57 @@ func appendedElem(call *ssa.Call) ssa.Value {
 	return nil
 }
 
-func guardedByNotContains(b *ssa.BasicBlock, base ssa.Value, field *types.Var, elem ssa.Value) bool {
-	for cur := b; cur != nil; cur = cur.Idom() {
+// appendsReachingReturn: the append calls whose result can be the first result of h (through phis and
+// further appends).
+func appendsReachingReturn(h *ssa.Function) []*ssa.Call {
+	var out []*ssa.Call
+	seen := map[ssa.Value]bool{}
+	var walk func(v ssa.Value)
+	walk = func(v ssa.Value) {
+		if seen[v] {
+			return
+		}
+		seen[v] = true
+		switch x := v.(type) {
+		case *ssa.Phi:
+			for _, e := range x.Edges {
+				walk(e)
+			}
+		case *ssa.Call:
+			if bi, ok := x.Common().Value.(*ssa.Builtin); ok && bi.Name() == "append" {
+				out = append(out, x)
+				walk(x.Common().Args[0])
+			}
+		}
+	}
+	for _, b := range h.Blocks {
+		if ret, ok := b.Instrs[len(b.Instrs)-1].(*ssa.Return); ok && len(ret.Results) > 0 {
+			walk(ret.Results[0])
+		}
+	}
+	return out
+}
+
+func sameList(a, b ssa.Value) bool {
+	if a == b {
+		return true
+	}
+	la, ok1 := a.(*ssa.UnOp)
+	lb, ok2 := b.(*ssa.UnOp)
+	if ok1 && ok2 && la.Op == token.MUL && lb.Op == token.MUL {
+		fa, ba := fieldOfAddr(la.X)
+		fb, bb := fieldOfAddr(lb.X)
+		return fa != nil && fa == fb && ba == bb
+	}
+	return false
+}
+
+// guardedAppend: append(list, elem) is dominated by the false branch of slices.Contains(list, elem)
+// on the same list (the same SSA value, or loads of the same field of the same object).
+func guardedAppend(ap *ssa.Call) bool {
+	list := ap.Common().Args[0]
+	elem := appendedElem(ap)
+	for cur := ap.Block(); cur != nil; cur = cur.Idom() {
 		idom := cur.Idom()
 		if idom == nil {
 			return false
@@ -290,21 +423,13 @@ func guardedByNotContains(b *ssa.BasicBlock, base ssa.Value, field *types.Var, e
 		if fn == nil || fn.Pkg() == nil || fn.Pkg().Path() != "slices" || fn.Name() != "Contains" || len(call.Common().Args) != 2 {
 			continue
 		}
-		// contains(list, e): list is a load of the same field on the same base, e the appended element
-		ld, ok := call.Common().Args[0].(*ssa.UnOp)
-		if !ok || ld.Op != token.MUL {
-			continue
-		}
-		f2, base2 := fieldOfAddr(ld.X)
-		if f2 != field || base2 != base {
+		if !sameList(call.Common().Args[0], list) {
 			continue
 		}
 		if elem != nil && call.Common().Args[1] != elem {
 			continue
 		}
-		// append must be on the branch where Contains is false
-		containsTrueOnBranch := branch != neg
-		if !containsTrueOnBranch {
+		if containsTrueOnBranch := branch != neg; !containsTrueOnBranch {
 			return true
 		}
 	}
